@@ -116,7 +116,7 @@ func lex(src string) ([]tok, error) {
 				i += 2
 				continue
 			}
-			if strings.ContainsRune("+-*/^()[],.<>!{}", c) {
+			if strings.ContainsRune("+-*/^()[],.<>!{}#", c) {
 				out = append(out, tok{"op", string(c)})
 				i++
 				continue
@@ -353,6 +353,22 @@ func (p *parser) postfix() SVal {
 				}
 			}
 			v = SVal{x.S.MakeFn(name, v.RF, i.RF), et}
+		case p.isOp("#"):
+			p.pos++
+			n := p.next()
+			at := v.RF.SingleAtom()
+			if n.k != "num" || at == nil || at.Kind != "fn" {
+				p.fail("#n applies to a call result")
+			}
+			if at.Name == "tuple" {
+				k := int(n.s[0] - '0')
+				if k >= len(at.Args) {
+					p.fail("no component %s", n.s)
+				}
+				v = SVal{at.Args[k], nil}
+			} else {
+				v = SVal{x.S.MakeFn(at.Name+"#"+n.s, at.Args...), nil}
+			}
 		case p.isOp("("):
 			as := p.args()
 			v = SVal{x.S.MakeFn("apply", append([]*RF{v.RF}, rfs(as)...)...), nil}
@@ -412,7 +428,7 @@ func (p *parser) method(recv SVal, name string, as []SVal) SVal {
 	return SVal{x.Invoke(name, all...), nil}
 }
 
-var rawFns = map[string]bool{"idx": true, "lookup": true, "slice": true, "apply": true, "tuple": true, "deref": true,
+var rawFns = map[string]bool{"addr": true, "idx": true, "lookup": true, "slice": true, "apply": true, "tuple": true, "deref": true,
 	"toint": true, "idiv": true, "imod": true, "shl": true, "shr": true, "and": true, "or": true, "andnot": true,
 	"maxint": true, "minint": true, "range": true, "lookupok": true}
 
@@ -537,6 +553,9 @@ func (p *parser) funcall(name string, pkg *ssa.Package) SVal {
 			return SVal{s.MakeFn(a, ar...), types.Typ[types.Float64]}
 		}
 		if rawFns[name] {
+			if name == "addr" {
+				name = "&idx"
+			}
 			return SVal{s.MakeFn(name, ar...), nil}
 		}
 		pkg = p.e.Pkg
